@@ -28,7 +28,7 @@ def items(tier):
     out = []
     # the quote table varies fastest: consecutive executions in one process use other quotes at the same instant
     for fee in fees(tier):
-        for asset in ('A', 'B'):
+        for asset in ('A', 'Bq'):
             for q in qtys(tier):
                 for j in OPEN_INSTANTS:
                     for table in (0, 1, 2, 3, 5):
@@ -38,7 +38,7 @@ def items(tier):
     tables = (4, 0, 2) if tier == 'quick' else (4, 0, 1, 2, 3)
     for fee in fees(tier):
         for table in tables:
-            for asset in ('A', 'B'):
+            for asset in ('A', 'Bq'):
                 for q in (qtys(tier)[::2]):
                     for j in ((3,) if tier == 'quick' else OPEN_INSTANTS):
                         out.append({'fee': list(fee), 'pair': True, 'history': [list(e) for e in INIT] + [
@@ -114,7 +114,7 @@ def two_broker_items(tier):
             for ty in (0, 1, 2, 3):
                 if tx == ty:
                     continue
-                for a in ('A', 'B'):
+                for a in ('A', 'Bq'):
                     for q in ((7, -100) if tier == 'quick' else (1, 7, -100, -333)):
                         for j in ((3,) if tier == 'quick' else OPEN_INSTANTS):
                             out.append({'fee': list(fee), 'tx': tx, 'ty': ty, 'asset': a, 'qty': q, 'instant': j})
